@@ -23,8 +23,8 @@ from vlib import common as C
 from vlib import conc
 from vlib import x_fibersched
 
-PROGS = ['cas', 'pool', 'strand', 'timed', 'coro', 'sleep', 'all']
-PROGS2 = ['mixA', 'mixB', 'mixC', 'mixD']
+PROGS = ['cas', 'pool', 'strand', 'timed', 'coro', 'sleep', 'clocks', 'all']
+PROGS2 = ['mixA', 'mixB', 'mixC', 'mixD', 'mixE']
 FREQ = [1, 2, 3, 5, 16, 16, 64]
 PICK = [1, 2, 3, 10, 10, 50]
 AFAIL = [0, 2, 3, 13, 13, 40]
